@@ -15,7 +15,7 @@
      unsafe cfg o              another filter / count<>"none" / limit>=0 / offset<>0 / order / more targets than
                                MaxItemsPerResponse *)
 From Coq Require Import NArith ZArith List String Bool.
-From AV Require Import lib.Str model.C20_model model.C20_run proofs.C20_proofs proofs.C20_plan proofs.C20_main.
+From AV Require Import lib.Str model.C20_model model.C20_run proofs.C20_proofs proofs.C20_plan proofs.C20_main proofs.C20_spec.
 Import ListNotations.
 Local Open Scope string_scope.
 
@@ -152,3 +152,37 @@ Theorem C20_terminates : forall cfg page c todo,
   snd (crun cfg page c todo) <> CFuel /\ List.length (fst (crun cfg page c todo)) <= List.length todo.
 Proof. exact crun_terminates. Qed.
 Print Assumptions C20_terminates.
+
+(* the boolean clauses with which the evaluator (model/C20_run.v spec_b) judges what the implementation
+   returned mean what they should ... *)
+Theorem C20_once_b_reflects : forall tg items,
+  once_b tg items = true <->
+  (forall u, In u tg -> count_occ string_dec (map (fun x => it_uuid (snd x)) items) u <= 1) /\
+  (forall b i, In (b, i) items -> In (it_uuid i) tg -> b = prefix (it_uuid i)).
+Proof. exact once_b_iff. Qed.
+Print Assumptions C20_once_b_reflects.
+Theorem C20_complete_b_reflects : forall tg ex items,
+  complete_b tg ex items = true <->
+  (forall u, In u tg -> (In u ex <-> In u (map (fun x => it_uuid (snd x)) items))).
+Proof. exact complete_b_iff. Qed.
+Print Assumptions C20_complete_b_reflects.
+Theorem C20_spec_targets_reflects : forall o u, In u (spec_targets o) <-> is_target o u = true.
+Proof. exact spec_targets_In. Qed.
+Print Assumptions C20_spec_targets_reflects.
+
+(* ... and the model passes them under the hypotheses of the theorems above *)
+Theorem C20_model_once : forall cfg page o,
+  federated o = true -> all_well_typed o = true -> remote_involved cfg o = true -> unsafe cfg o = false ->
+  (forall c n batch its, page c n batch = AItems its ->
+     NoDup (uuids its) /\ forall x, In x (uuids its) -> In x batch \/ is_target o x = false) ->
+  once_b (spec_targets o) (merged cfg (run cfg page o)) = true.
+Proof. exact model_once. Qed.
+Print Assumptions C20_model_once.
+Theorem C20_model_complete : forall cfg page o ex,
+  federated o = true -> all_well_typed o = true -> remote_involved cfg o = true -> unsafe cfg o = false ->
+  (forall u, is_target o u = true -> has_backend cfg (prefix u) = true) ->
+  (forall c n b, exists its, page c n b = AItems its /\ NoDup (uuids its) /\ incl (uuids its) b /\
+                 (forall x, In x (uuids its) -> mem x ex = true) /\ (its = [] -> forall x, In x b -> mem x ex = false)) ->
+  errs (run cfg page o) = [] /\ complete_b (spec_targets o) ex (merged cfg (run cfg page o)) = true.
+Proof. exact model_complete. Qed.
+Print Assumptions C20_model_complete.
